@@ -73,11 +73,15 @@ def rnd_value(rng, depth):
     return rnd_array(rng)
 
 
-def rnd_result(rng):
-    ty = int(rng.randint(0, 4))
-    acc = bool(rng.randint(2))
+def rnd_result(rng, ty=None, acc=None, depth=1):
+    ty = int(rng.randint(0, 4)) if ty is None else ty
+    acc = bool(rng.randint(2)) if acc is None else acc
     hist = []
-    for _ in range(rng.randint(0, 6)):
+    for _ in range(rng.randint(0, 6 if depth else 3)):
+        if depth and rng.rand() < 0.25:  # merge another result (same name, type, accumulate) given by its own history
+            hist.append({"op": "merge", "v": {"t": "None", "n": 0, "d": 1, "s": ""}, "tot": {"t": "PyInt", "n": 1, "d": 1, "s": ""},
+                         "rd": [rnd_result(rng, ty, acc, 0)]})
+            continue
         t = WIDE[rng.randint(len(WIDE))]
         if ty == 0:
             f = Fraction(int(rng.randint(-20, 21)), 4) if "Float" in t else Fraction(int(rng.randint(-9, 10)))
@@ -94,6 +98,9 @@ def rnd_result(rng):
         else:
             t3 = ["PyInt", "NpInt32", "NpInt64"][rng.randint(3)]
             hist.append({"v": {"t": t3, "n": int(rng.randint(0, 4)), "d": 1, "s": ""}, "tot": {"t": "PyInt", "n": 0, "d": 1, "s": ""}})
+    for u in hist:
+        u.setdefault("op", "upd")
+        u.setdefault("rd", [])
     return {"name": "r", "type": ty, "acc": acc, "nch": 4 if ty == 3 else 0, "hist": hist}
 
 
@@ -208,9 +215,14 @@ def record_result(rd):
     from pyphysim.simulations.results import Result
     from . import c17
     tg = set()
-    for u in rd["hist"]:
-        tags_of(u["v"], tg)
-        tags_of(u["tot"], tg)
+    def walk(h):
+        for u in h:
+            if u["op"] == "merge":
+                walk(u["rd"][0]["hist"])
+            else:
+                tags_of(u["v"], tg)
+                tags_of(u["tot"], tg)
+    walk(rd["hist"])
     if rd["type"] == 1 and not rd["hist"]:
         tg.add("ratio0")
     if rd["type"] == 3 and rd["acc"]:
